@@ -208,18 +208,43 @@ theorem DV.adopt {s : St} (h : DV s) : DV (if s.allocator then ({ s with info :=
     obtain ⟨he, hs⟩ := h hd
     exact ⟨he, hs.imp id (fun hn => ⟨hn.1, Or.inl rfl⟩)⟩
 
-theorem handleMetadataData_dv (m : M) (k i len : Nat) (g : Bool) (h : DV m.1) :
-    DV (handleMetadataData m k i len g).1 := by
-  unfold handleMetadataData
+theorem hmdStart_dv (m : M) (h : DV { m.1 with info := false }) (hi : m.1.info = true) : DV (hmdStart m).1 := by
+  have h0 : m.1.doVerify = true → m.1.errC = true := fun hd => (h hd).1
+  unfold hmdStart
+  split
+  · simp only [onSt_fst]; exact stop_dv' _ _ h0
+  · simp only [onSt_fst]
+    split
+    · next ha =>
+      intro hd
+      obtain ⟨he, hs⟩ := h (by simpa using hd)
+      exact ⟨by simpa using he, hs.imp (by simp) (fun hn => ⟨by simpa using hn.1, Or.inl (by simpa using ha)⟩)⟩
+    · intro hd
+      obtain ⟨he, hs⟩ := h hd
+      exact ⟨he, hs.imp id (fun hn => ⟨hn.1, Or.inl rfl⟩)⟩
+
+theorem hmdAdopt_dv (m : M) (h : DV m.1) : DV (hmdAdopt m).1 := by
+  unfold hmdAdopt
   dsimp only
   repeat' split
   all_goals first
-    | exact h
     | (simp only [onSt_fst]; exact stop_dv _ _ (by dv_frame h))
+    | (apply hmdStart_dv _ _ rfl
+       intro hd
+       obtain ⟨he, hs⟩ := h hd
+       exact ⟨he, hs.imp id (fun hn => ⟨hn.1, hn.2.imp id (fun hv => hv.imp id (fun _ => rfl))⟩)⟩)
+
+theorem handleMetadataData_dv (m : M) (k i len : Nat) (g : Bool) (h : DV m.1) :
+    DV (handleMetadataData m k i len g).1 := by
+  rw [handleMetadataData_eq]
+  split
+  · exact h
+  unfold hmdBlock
+  dsimp only
+  repeat' split
+  all_goals first
+    | exact hmdAdopt_dv _ (by dv_frame h)
     | (dv_frame h)
-    | (simp only [onSt_fst]
-       have h1 : DV { m.1 with idls := [] } := by dv_frame h
-       simpa using h1.adopt)
 
 theorem runWorkers_dv (fuel : Nat) (m : M) (h : DV m.1) : DV (runWorkers fuel m).1 := by
   induction fuel generalizing m with
